@@ -28,9 +28,9 @@ func NewTapeWriter(f io.Writer, isRegular bool, recordSize int) (tw *tar.Writer,
 			}
 
 			if !isRegular {
-				if config.MagneticTapeBlockSize*recordSize-counter.BytesRead > 0 {
-					// Fill the rest of the record with zeros
-					if _, err := bw.Write(make([]byte, config.MagneticTapeBlockSize*recordSize-counter.BytesRead)); err != nil {
+				if rest := counter.BytesRead % (config.MagneticTapeBlockSize * recordSize); rest > 0 {
+					// Fill the rest of the last record with zeros
+					if _, err := bw.Write(make([]byte, config.MagneticTapeBlockSize*recordSize-rest)); err != nil {
 						return err
 					}
 				}
